@@ -1,4 +1,6 @@
 import Propka.Model.Program
+import Propka.Model.Output
+import Propka.Props.C01
 import Propka.Props.C07
 import Propka.Props.C12
 import Propka.Props.C13
@@ -102,6 +104,37 @@ theorem averageL_single (z : α) (g : Dets.GRec α) :
     (averageL z [g]).pka = (z + g.pka) / ((1 : Nat) : α) := by
   simp [averageL, Dets.divAcc, iaddL]
 end
+
+/-! ### the summary of the .pka file (C01, C02) -/
+/-- **C01 / C02, on the output model**: the summary section of the .pka file has, for every reported group whose residue type is in
+    `write_out_order`, exactly as many rows as the average conformation has such groups - one, when no two groups are equal - provided
+    `write_out_order` lists no residue type twice (decided for the shipped file: `inst_order_ok`): the rows are the image of a list of
+    positions in which the position of every such group occurs exactly once. -/
+theorem summaryRows_map {γ δ : Type} (order : List String) (rt : δ → String) (f : γ → δ) (l : List γ) :
+    Groups.summaryRows order rt (l.map f) = (Groups.summaryRows order (fun x => rt (f x)) l).map f := by
+  unfold Groups.summaryRows
+  induction order with
+  | nil => rfl
+  | cons r rest ih =>
+    rw [List.flatMap_cons, List.flatMap_cons, List.map_append, ih, List.filter_map]
+    rfl
+
+theorem summary_rows_once (order : List String) (hn : order.Nodup) (gs : List (AvrGroup Float)) (dflt : AvrGroup Float) (i : Nat)
+    (hi : i < gs.length) (hg : (gs.getD i dflt).resType ∈ order) :
+    Groups.summaryRows order (fun (x : AvrGroup Float) => x.resType) ((List.range gs.length).map fun k => gs.getD k dflt) =
+      (Groups.summaryRows order (fun k => (gs.getD k dflt).resType) (List.range gs.length)).map (fun k => gs.getD k dflt) ∧
+    (Groups.summaryRows order (fun k => (gs.getD k dflt).resType) (List.range gs.length)).count i = 1 := by
+  refine ⟨summaryRows_map order _ _ _, ?_⟩
+  rw [Groups.summary_once order (fun k => (gs.getD k dflt).resType) (List.range gs.length) i hn hg]
+  exact (List.nodup_range (n := gs.length)).count (a := i) |>.trans (if_pos (List.mem_range.mpr hi))
+
+/-- the pKa printed for a group in the determinant table and in the summary is one and the same rendering (`fmt2`) of one and the
+    same number, so the two agree to the printed precision -/
+theorem summary_and_table_render_one_number (rp : Bool) (g : AvrGroup Float) (h : (g.ctg.isSome && rp) = false) :
+    Output.summaryRow rp g = "   " ++ Pipe.padL 9 g.label ++ " " ++ Pipe.padL 8 (Output.fmt2 g.acc.pka) ++ " " ++ Pipe.padL 10 (Output.fmt2 g.model) ++ " " ++
+      Pipe.padL 18 (if g.het then g.type else "") ++ "   " ++
+      (match g.ctg with | some l => " NB: Discarded due to coupling with " ++ l | none => "") ++ "\n" := by
+  unfold Output.summaryRow; rw [h]; rfl
 
 /-! ### non-vacuity: the C13 demo file satisfies the hypotheses, and it parses -/
 example : ∀ l ∈ Pdb.demo, isAtomLine l = true → 21 < l.length := by decide
